@@ -90,7 +90,9 @@ def generate(run_seed, prop, tier="quick"):
     scenario = {"family": "sampler", "prop": prop, "run_seed": run_seed, "configs": configs, "mode": mode, "ctor": ctor,
                 "entropy": entropy, "ops": ops, "faults_enabled": sorted(k for k, v in faults.items() if v)}
     if prop == "C09":
-        scenario["resolver_items"] = [gen_mol.build_item(rng, kind="atomistic", weights=rng.random() < 0.5) for _ in range(rng.choice([1, 2]))]
+        scenario["resolver_items"] = [gen_mol.build_item(rng, kind="atomistic", weights=rng.random() < 0.5,
+                                                         hyper=("S", "P", "N") if rng.random() < 0.5 else (),
+                                                         explicit_h=rng.random() < 0.3) for _ in range(rng.choice([1, 2]))]
         if rng.random() < 0.3:
             scenario["resolver_strings"] = [rng.choice(ION_STRINGS)]
     return scenario
@@ -243,7 +245,7 @@ def check_molecule(mol, cfg, templates, masses, target, start_fragment, out, sta
         return
     # -- valence (C09 / C16 last clause): independent of the structural oracles below ------------
     if cfg["all_atom"]:
-        for detail in check_valence(mol, stats=stats):
+        for detail in check_valence(mol, explicit_h=bool(cfg.get("explicit_h")), stats=stats):
             violate("C09.valence C16.valence", detail)
         stats["valence_graphs"] = stats.get("valence_graphs", 0) + 1
     keys = list(mol.nodes)
@@ -694,7 +696,7 @@ def resolve_items(items):
         except Exception as exc:  # noqa
             stats["resolver_items_error"] = stats.get("resolver_items_error", 0) + 1
             continue
-        for detail in check_valence(fine, stats=stats):
+        for detail in check_valence(fine, explicit_h=bool(item.get("explicit_h")), stats=stats):
             out.append({"oracle": "C09.valence", "detail": "resolver output of %s: %s" % (item["multi"][:80], detail), "event": None})
         skel, problems = graphcmp.heavy_skeleton(fine)
         ok, why = graphcmp.isomorphic(skel, graphcmp.expected_skeleton(item["mol"]))
